@@ -48,6 +48,28 @@ CoefVariants(n, o, rich) ==
 SplinesOn(g, orders, rich) ==
   UNION {UNION {{SplOn(S, o, c) : c \in CoefVariants(SupNInt(S), o, rich)} : o \in orders} : S \in SupportsOn(g)}
 
+
+\* ways two grids can differ (C08)
+InsertAfter(g, k, x) == [i \in 1..(Len(g) + 1) |-> IF i <= k THEN g[i] ELSE IF i = k + 1 THEN x ELSE g[i - 1]]
+GridVariants(g) ==
+  LET n == Len(g) IN
+  {[g EXCEPT ![2] = RDiv(RAdd(g[1], g[2]), RTwo)]}          \* one point moved
+  \cup {[g EXCEPT ![n] = RAdd(g[n], ROne)]}                   \* last point moved (agrees on the rest)
+  \cup {InsertAfter(g, 0, RSub(g[1], ROne))}                  \* extra point in front
+  \cup {InsertAfter(g, n, RAdd(g[n], ROne))}                  \* extra point at the back
+  \cup {InsertAfter(g, 1, RDiv(RAdd(g[1], g[2]), RTwo))}      \* extra point inside
+  \cup (IF n >= 3 THEN {SubSeq(g, 1, n - 1), SubSeq(g, 2, n)} ELSE {})   \* prefix, suffix
+
+\* abscissae probing every region of a grid: outside (near, far), every grid
+\* point, midpoints and quarter points of every interval
+Probes(g) ==
+  LET n == Len(g) IN
+  {g[i] : i \in 1..n}
+  \cup {RSub(g[1], ROne), RSub(g[1], FromInt(100)), RAdd(g[n], ROne), RAdd(g[n], FromInt(100))}
+  \cup {Mid(g, j) : j \in 0..(n - 2)}
+  \cup {RAdd(g[j + 1], RDiv(Half(g, j), RTwo)) : j \in 0..(n - 2)}
+  \cup {RSub(g[j + 2], RDiv(Half(g, j), FromInt(4))) : j \in 0..(n - 2)}
+
 Scalars == {RZero, ROne, FromInt(-1), RTwo, R(1, 2), R(-3, 4)}
 NonZeroScalars == Scalars \ {RZero}
 =============================================================================
